@@ -53,7 +53,7 @@ def describe(rep):
     rep.rule = 'state = explored path (restart-request pattern / branch pattern of the controllers); transition = branch decision'
     rep.assume('restart requests are injected by a harness convergence controller (control order 90) when iter >= maxiter',
                'fixed exactly representable dt in (b) so that accepted start times are exact', 'beta <= 1 (beta < 1 for the strict retry-with-smaller-step clause), e_est > 0, e_tol > 0 in (c)', 'factor_if_not_converged > 1, residual_max_tol > restol (sensible configuration)')
-    rep.out_of_scope('error estimators themselves (numerical quantities)', 'avoid_restarts, StepSizeRounding, interpolation between restarts', 'MPI flavours',
+    rep.out_of_scope('error estimators themselves (numerical quantities)', 'EstimateContractionFactor (its outputs are symbolic inputs of the avoid_restarts rule), StepSizeRounding (rounds by powers of ten through log10), interpolation between restarts beyond the listed histories', 'MPI flavours',
                      'NP > 4, more than 6 steps, max_restarts > 3 in (b)')
 
 
@@ -74,6 +74,7 @@ def tasks(tier, seed):
     T.append(('adapt',))
     T.append(('adapt_rk',))
     T.append(('adapt_res',))
+    T.append(('adapt_avoid',))
     for which in ('poly', 'extra', 'coll'):
         T.append(('adapt_conv', which))
     hist = [(1, 2, 3, False, True), (2, 1, 4, False, True), (2, 2, 4, False, True), (2, 2, 4, True, True), (2, 1, 4, False, False),
@@ -115,6 +116,8 @@ def run_task(rep, task):
         adapt_case(rep, rk=True)
     elif task[0] == 'adapt_res':
         adapt_residual_case(rep)
+    elif task[0] == 'adapt_avoid':
+        adapt_avoid_case(rep)
     elif task[0] == 'adapt_conv':
         adapt_conv_case(rep, task[1])
     elif task[0] == 'hist':
@@ -659,6 +662,84 @@ def adapt_residual_case(rep):
     rep.sample({'case': 'adapt_res', 'free_variables': 'dt, residual, e_tol, e_tol_low, planned step size (or none), maxiter'}, limit=2)
 
 
+def _avoid_run(NL, order, it_, mxv, e_est, e_tol, more, rho):
+    """the real AdaptivityBase.determine_restart with avoid_restarts on plain or symbolic scalars"""
+    from pySDC.implementations.convergence_controller_classes.adaptivity import Adaptivity
+
+    A_ = _mk(Adaptivity, dict(beta=0.9, e_tol=e_tol, avoid_restarts=True))
+    Ls = [SimpleNamespace(status=SimpleNamespace(dt_new=None, error_embedded_estimate=e_est, iter_to_convergence=more[l], contraction_factor=rho[l]),
+                          params=SimpleNamespace(dt=0.5), sweep=SimpleNamespace(coll=SimpleNamespace(order=order))) for l in range(NL)]
+    St = SimpleNamespace(levels=Ls, status=SimpleNamespace(iter=it_, restart=False, slot=0, force_continue=False), params=SimpleNamespace(maxiter=mxv), time=0.0)
+    A_.determine_restart(None, St)
+    return St.status.restart, St.status.force_continue
+
+
+def adapt_avoid_case(rep):
+    """avoid_restarts: a rejected step (estimate at or above the tolerance at the iteration budget) is either restarted or told to keep iterating -- never
+    accepted --, it keeps iterating only while iter + estimated iterations to convergence is below a bound independent of the estimates (so the
+    continuation ends), and a step that is not rejected gets neither flag"""
+    e_est, e_tol = z3.Reals('e_est e_tol')
+    mx = z3.Int('mx')
+    for NL in (1, 2):
+        more = [z3.Int(f'more{l}') for l in range(NL)]
+        rho = [z3.Real(f'rho{l}') for l in range(NL)]
+        pre = [e_est > 0, e_tol > 0, mx >= 1, mx <= 6] + [m >= 0 for m in more] + [r >= 0 for r in rho]
+        for order in (2, 3, 5):
+            for it_ in (1, 2, 4):
+
+                def fn(c):
+                    for a in pre:
+                        c.add(a)
+                    rs, fc = _avoid_run(NL, order, it_, SymInt(mx), SymReal(e_est), SymReal(e_tol), [SymInt(m) for m in more], [SymReal(r) for r in rho])
+                    return dict(restart=B(rs), cont=B(fc))
+
+                paths = explore(fn)
+                rep.paths += len(paths)
+                rep.decisions += sum(len(p.decisions) for p in paths)
+                mm = more[0] if NL == 1 else z3.If(more[0] >= more[1], more[0], more[1])
+                rr = rho[0] if NL == 1 else z3.If(rho[0] >= rho[1], rho[0], rho[1])
+                kf = it_ + mm
+                rejected = z3.And(z3.IntVal(it_) >= mx, e_est >= e_tol)
+                ok_cont = z3.And(rr <= 1, kf <= 2 * mx, kf <= order)
+                name = f'adapt_avoid/NL{NL}/order{order}/it{it_}'
+                for i, p in enumerate(paths):
+                    r = p.result
+                    A = pre + list(p.pc)
+                    # what the property needs: never accepted silently; continuation bounded by a quantity that does not depend on the estimates
+                    # (the exact thresholds -- rho > 1, 2 maxiter, collocation order -- are the implementation's choice and not demanded)
+                    goals = {'rejected-step-restarts-or-continues': z3.Implies(rejected, z3.Xor(r['restart'], r['cont'])),
+                             'no-flag-unless-rejected': z3.Implies(z3.Not(rejected), z3.And(z3.Not(r['restart']), z3.Not(r['cont']))),
+                             'continuation-bounded': z3.Implies(r['cont'], z3.Or(kf <= order, kf <= 2 * mx))}
+                    for cl, g in goals.items():
+                        res, m = prove(g, A, name=f'{name}/path{i}:{cl}')
+                        rep.ob(f'{name}/path{i}:{cl}', res)
+                        if res == 'sat':
+                            rep.replayed += 1
+                            v = dict(e_est=float(model_value(m, e_est)), e_tol=float(model_value(m, e_tol)), mx=int(model_value(m, mx)),
+                                     more=[int(model_value(m, a)) for a in more], rho=[float(model_value(m, a)) for a in rho])
+                            if avoid_concrete(NL, order, it_, v):
+                                rep.violation(f'{PID}/avoid_restarts/{cl}', f'{name}: {cl} refuted on the real class for {v}', {'task': ['adapt_avoid'], 'NL': NL, 'order': order, 'iter': it_, 'vals': v})
+                            else:
+                                rep.unreproduced(f'{name}/path{i}:{cl}', v)
+                rep.ob(f'{name}:coverage', coverage_certificate(paths, pre, name=f'{name}:coverage'))
+                if NL == 1 and order == 5 and it_ == 2:
+                    seen = 'unsat'
+                    for p in paths:
+                        rv_, _ = satisfiable(pre + list(p.pc) + [p.result['cont']], name=f'{name}:continue-reachable', kind='vacuity')
+                        if rv_ == 'sat':
+                            seen = 'sat'
+                            break
+                    rep.vac(f'{name}:continue-reachable', seen, 'sat')
+    rep.sample({'case': 'adapt_avoid', 'free_variables': 'e_est, e_tol, maxiter, iter_to_convergence and contraction factor per level', 'enumerated': 'levels 1..2, collocation order 2/3/5, iter 1/2/4'}, limit=2)
+
+
+def avoid_concrete(NL, order, it_, v):
+    rs, fc = _avoid_run(NL, order, it_, v['mx'], v['e_est'], v['e_tol'], v['more'], v['rho'])
+    rejected = it_ >= v['mx'] and v['e_est'] >= v['e_tol']
+    kf = it_ + max(v['more'])
+    return (rejected and (bool(rs) == bool(fc))) or (not rejected and (bool(rs) or bool(fc))) or (bool(fc) and not (kf <= order or kf <= 2 * v['mx']))
+
+
 class _NS(SimpleNamespace):
     def get(self, k, d=None):
         return getattr(self, k, d)
@@ -974,6 +1055,9 @@ def replay(path):
         bad = len({round(a, 12) for a in obs}) != 1 or obs[0] > prop_f * (1 + 1e-12) or (fits and abs(obs[0] - prop_f) > 1e-9 * (1 + prop_f))
     elif t[0] == 'adapt_conv':
         bad = adapt_conv_concrete(t[1], d['order'], d['iter'], d['restart_at_maxiter'], d['vals'], d.get('decisions', ()))
+        print('violated on the real class:', bad)
+    elif t[0] == 'adapt_avoid':
+        bad = avoid_concrete(d['NL'], d['order'], d['iter'], d['vals'])
         print('violated on the real class:', bad)
     elif t[0] == 'adapt_res':
         from pySDC.implementations.convergence_controller_classes.adaptivity import AdaptivityResidual
